@@ -400,7 +400,7 @@ impl Node {
     fn slots(&self) -> u32 {
         let mut n = 1;
         if let Some(l) = &self.long {
-            n += ((l.encode_utf16().count() + 12) / 13) as u32;
+            n += ((units_of(l).len() + 12) / 13) as u32;
         }
         for j in &self.junk {
             n += match j {
@@ -642,7 +642,7 @@ fn dir_bytes(
             }
         }
         if let Some(l) = &k.long {
-            let units: Vec<u16> = l.encode_utf16().collect();
+            let units: Vec<u16> = units_of(l);
             for s in lfn_slots(&units, lfn_checksum(&k.short)) {
                 out.extend_from_slice(&s);
             }
@@ -656,7 +656,8 @@ fn dir_bytes(
         };
         let hash = if k.filler { fnv_zeros(k.zero_len) } else { fnv64(&k.content) };
         out.extend_from_slice(&sfn_slot(&k.short, k.attrs, k.nt, &k.t, k.first_cluster, size, fat32));
-        g_ent(k.long.as_deref(), &k.short, k.attrs, k.nt, &k.t, k.first_cluster, size, hash);
+        let shown = k.long.as_deref().map(display_of);
+        g_ent(shown.as_deref(), &k.short, k.attrs, k.nt, &k.t, k.first_cluster, size, hash);
     }
     if let Some((pos, l)) = label {
         if pos >= dir.kids.len() {
@@ -666,6 +667,25 @@ fn dir_bytes(
     gt.push(format!("G dir {} {}", dir_path_hex(path), ents.len()));
     gt.extend(ents);
     out
+}
+
+/// In a node's long name the private-use character U+E000 stands for an UNPAIRED SURROGATE (unit 0xD800) on the disk;
+/// a reader that decodes lossily shows U+FFFD there.
+pub const LONE: char = '\u{E000}';
+
+/// Names with an unpaired surrogate are generated only when the environment variable HARNESS_LONE_SURROGATE is set:
+/// the library lists such a name lossily (U+FFFD) while the current Lean model drops the long name (a MODEL
+/// difference, see /verif/COVERAGE.md), so the default scenario stays silent.
+pub fn lone_enabled() -> bool {
+    std::env::var_os("HARNESS_LONE_SURROGATE").is_some()
+}
+
+pub fn units_of(l: &str) -> Vec<u16> {
+    l.encode_utf16().map(|u| if u == 0xE000 { 0xD800 } else { u }).collect()
+}
+
+pub fn display_of(l: &str) -> String {
+    l.replace(LONE, "\u{FFFD}")
 }
 
 /// FNV-1a-64 of `n` zero bytes.
@@ -678,7 +698,7 @@ pub fn fnv_zeros(n: u64) -> u64 {
 }
 
 fn node_name(k: &Node) -> String {
-    k.long.clone().or_else(|| display_short(&k.short, k.nt)).unwrap_or_else(|| "?".to_string())
+    k.long.as_deref().map(display_of).or_else(|| display_short(&k.short, k.nt)).unwrap_or_else(|| "?".to_string())
 }
 
 /// Allocate clusters for everything below `dir` (chains recorded in the nodes and in `fat`).
@@ -970,6 +990,11 @@ impl TreeGen<'_> {
                         self.serial += 1;
                         format!("generated long name number {}.bin", self.serial)
                     }
+                    2 if !is_dir && lone_enabled() && !taken_long.iter().any(|t| t.contains(LONE)) => {
+                        // an unpaired surrogate inside the name (listed lossily, found by no spelling)
+                        self.count("lfn.lone_surrogate");
+                        format!("ab{}cd.txt", LONE)
+                    }
                     _ => self.rng.pick(&LONG_NAMES).to_string(),
                 };
                 if taken_long.iter().any(|t| t.to_uppercase() == l.to_uppercase()) {
@@ -991,7 +1016,8 @@ impl TreeGen<'_> {
                 }
                 let s = self.short_for_long(&l, &taken);
                 taken_long.push(l.clone());
-                (Some(l.clone()), s, 0u8, Some(l))
+                let addressable = if l.contains(LONE) { None } else { Some(l.clone()) };
+                (Some(l.clone()), s, 0u8, addressable)
             } else {
                 let (s, nt, oem) = self.short_only(&taken);
                 self.count("sfn.only");
